@@ -944,8 +944,20 @@ class ExcelCompiler:
             self.log.info(f"Range {cell_range.address} evaluated to '{data}'")
 
             cell_range.value = data
+            if cell_range.formula and not self.cycles:
+                self._evaluate_referenced_ranges(cell_range)
 
         return cell_range.value
+
+    def _evaluate_referenced_ranges(self, cell):
+        """ranges only used as a reference (ie: intersection) are calculated
+        as well, as set_value() does not look behind the cells of a range
+        which were never calculated"""
+        for needed_addr in cell.needed_addresses:
+            needed = needed_addr.is_range and self.cell_map.get(
+                needed_addr.address)
+            if needed and needed.value is None:
+                self._evaluate_range(needed_addr.address)
 
     def _evaluate(self, address):
         """Evaluate a single cell"""
@@ -1005,14 +1017,7 @@ class ExcelCompiler:
                 cell.empty_result = cell.value is None
 
                 if not self.cycles:
-                    # ranges only used as a reference (ie: intersection) are
-                    # calculated as well, as set_value() does not look behind
-                    # the cells of a range which were never calculated
-                    for needed_addr in cell.needed_addresses:
-                        needed = needed_addr.is_range and self.cell_map.get(
-                            needed_addr.address)
-                        if needed and needed.value is None:
-                            self._evaluate_range(needed_addr.address)
+                    self._evaluate_referenced_ranges(cell)
 
         return cell.value
 
